@@ -328,7 +328,8 @@ class SdrFullSensorRecord(SdrCommon):
                 L_SQR: lambda x: math.pow(x, 2),
                 L_CUBE: lambda x: math.pow(x, 3),
                 L_SQRT: math.sqrt,
-                L_CUBERT: lambda x: math.pow(x, 1.0/3),
+                L_CUBERT: lambda x: math.copysign(
+                    math.pow(abs(x), 1.0/3), x),
                 L_LINEAR: lambda x: x,
             }[self.linearization & 0x7f]
         except KeyError:
